@@ -135,61 +135,56 @@ class SubGrid(object):
         #
         # o - Node position.
 
-        # Determine position in the file of the sixteen surrounding nodes
-        pos1 = row * num_cols + col
-        pos2 = pos1 + 1
-        pos3 = pos2 + num_cols
-        pos4 = pos3 - 1
-        pos5 = pos4 - 2 * num_cols - 1
-        pos6 = pos5 + 1
-        pos7 = pos6 + 1
-        pos8 = pos7 + 1
-        pos9 = pos8 + num_cols
-        pos10 = pos9 + num_cols
-        pos11 = pos10 + num_cols
-        pos12 = pos11 - 1
-        pos13 = pos12 - 1
-        pos14 = pos13 - 1
-        pos15 = pos14 - num_cols
-        pos16 = pos15 - num_cols
-
         # Navigate to start of subgrid
         f.seek(start_byte, 1)
-        # Navigate to start of pos1 node
-        f.seek(16 * pos5, 1)
+        base = f.tell()
+        num_rows = self.gs_count // num_cols
 
-        # Read in values for nodes 5-8
-        node_5 = read_node(f)
-        node_6 = read_node(f)
-        node_7 = read_node(f)
-        node_8 = read_node(f)
+        def read(r, c):
+            f.seek(base + 16 * (r * num_cols + c))
+            return read_node(f)
 
-        # Navigate to start of pos16 node
-        f.seek(16 * (pos16 - pos8 - 1), 1)
+        def virtual(idx, count, fetch):
+            # Node idx of a line of count nodes. One step beyond either end
+            # (cells in the outermost ring of the subgrid) the line is
+            # continued by the parabola through its three nearest nodes, which
+            # turns the central differences below into second order one-sided
+            # differences instead of reading nodes of a neighbouring row or
+            # bytes outside the subgrid.
+            if 0 <= idx < count:
+                return fetch(idx)
+            end, step = (0, 1) if idx < 0 else (count - 1, -1)
+            n0, n1 = fetch(end), fetch(end + step)
+            if count < 3:
+                return tuple(2 * p - q for p, q in zip(n0, n1))
+            n2 = fetch(end + 2 * step)
+            return tuple(3 * p - 3 * q + r for p, q, r in zip(n0, n1, n2))
 
-        # Read in values for nodes 16, 1, 2, and 9
-        node_16 = read_node(f)
-        node_1 = read_node(f)
-        node_2 = read_node(f)
-        node_9 = read_node(f)
+        def node(r, c):
+            return virtual(r, num_rows,
+                           lambda rr: virtual(c, num_cols,
+                                              lambda cc: read(rr, cc)))
 
-        # Navigate to start of pos15 node
-        f.seek(16 * (pos15 - pos9 - 1), 1)
+        # Read in values of the sixteen surrounding nodes
+        node_5 = node(row - 1, col - 1)
+        node_6 = node(row - 1, col)
+        node_7 = node(row - 1, col + 1)
+        node_8 = node(row - 1, col + 2)
 
-        # Read in values for nodes 15, 3, 4 and 10
-        node_15 = read_node(f)
-        node_4 = read_node(f)
-        node_3 = read_node(f)
-        node_10 = read_node(f)
+        node_16 = node(row, col - 1)
+        node_1 = node(row, col)
+        node_2 = node(row, col + 1)
+        node_9 = node(row, col + 2)
 
-        # Navigate to start of pos14 node
-        f.seek(16 * (pos14 - pos10 - 1), 1)
+        node_15 = node(row + 1, col - 1)
+        node_4 = node(row + 1, col)
+        node_3 = node(row + 1, col + 1)
+        node_10 = node(row + 1, col + 2)
 
-        # Read in values for nodes 11, 12, 13 and 14
-        node_14 = read_node(f)
-        node_13 = read_node(f)
-        node_12 = read_node(f)
-        node_11 = read_node(f)
+        node_14 = node(row + 2, col - 1)
+        node_13 = node(row + 2, col)
+        node_12 = node(row + 2, col + 1)
+        node_11 = node(row + 2, col + 2)
 
         # Determine latitude and longitude of node 1
         lat1 = self.s_lat + row * self.lat_inc
